@@ -328,7 +328,9 @@ class SymCtx(BaseCtx):
         if d is not None and d.k is None:
             n = w.subst_eqs(d.n) if w.eqs else d.n
             extra.append(q.poly_z3(n) != 0)
-        for bound in (4, 64, None):
+        # binary-grid values first: they are exact as floats and sit away from tolerance boundaries, so the native
+        # replay sees the same comparisons as the exact run
+        for bound, grid in ((4, 16), (4, 1024), (64, 1024), (4, None), (64, None), (None, None)):
             s.push()
             try:
                 for c in extra:
@@ -336,6 +338,10 @@ class SymCtx(BaseCtx):
                 if bound is not None:
                     for zv in q.REG.zvars:
                         s.add(zv >= -bound, zv <= bound)
+                if grid is not None:
+                    for zv in q.REG.zvars:
+                        if zv.sort() == z3.RealSort():
+                            s.add(z3.IsInt(zv * grid))
                 r = s.check()
                 if r == z3.sat:
                     model = s.model()
